@@ -14,7 +14,7 @@ def enc_el(el, out):
         out.append("P")
         return
     if not isinstance(el.tag, str):
-        out.append("C")  # entities etc.: treated as ignorable
+        out.append("N")  # unexpanded entity reference
         return
     out += ["E", esc(el.tag), str(len(el.attrib))]
     for k, v in el.attrib.items():
@@ -48,7 +48,7 @@ def decode(s):
     def node():
         t = toks[pos[0]]
         pos[0] += 1
-        if t in ("C", "P"):
+        if t in ("C", "P", "N"):
             return (t,)
         if t == "T":
             v = unesc(toks[pos[0]])
